@@ -38,9 +38,21 @@ PatchLinkage.from_catalogs (any call order); accepted / InconsistentPatchesError
 guard_many (Model/Metadata.v: ids of the first catalog, reference = first of the stable descending sort of the
 records-per-patch tuples, EVERY other catalog against the reference catalog's own radii, rtol 1/2) and with
 the statement (accepted => same ids and no centre farther from the reference centre than the radius).
+
+Degenerate patches in that guard: scenes of 2..4 catalogs in which any subset of the patches of the reference catalog, of a partner or of
+both holds a single object, several objects at one position (stored radius exactly 0, or a few 1e-16 when the centre is the mean of the
+records) or objects 1e-9..1e-7 deg apart (tiny radius) - catalogs built from an index column, from given centres, from the reported
+centres of another catalog of the scene (coordinates or the catalog itself), used as created or restored from the cache.  One catalog
+(the reference or a partner) is left aligned (bit-identical centres), or displaced on the degenerate patches only, on the proper patches
+only, on one patch or on all, slightly (1e-7..1e-3 deg), far (multiples of the centre spacing) or by a multiple of the reference radius.
+autocorrelate / crosscorrelate / PatchLinkage.from_catalogs (any roles / call order) are judged inside Coq by c12_guardd_case
+(Model/Metadata.v): guard_many in its division-free form distance <= rtol * radius on the stored radii - a zero radius makes any
+displacement large, coinciding centres are accepted - plus the clause guard_zero_ok (accepted => every zero-radius patch of the reference
+catalog has coinciding partner centres).  The distance table is cross-checked against the math module on the stored centres.
 """
 import os
 import shutil
+import warnings
 from fractions import Fraction
 
 import numpy as np
@@ -64,6 +76,9 @@ TRUSTED = [
     "entries: the records-per-patch tuple that sorts first, as the code selects it; a failure is reported only if the statement "
     "also fails for every other catalog that is maximal by tuple or by total number of records); the distances between the "
     "centres of two catalogs are the implementation's own AngularCoordinates.distance values (accuracy: C14)",
+    "degenerate guard cases: the stored radii and centres are read through get_radii() / get_centers(); the distance table is the "
+    "implementation's own and is cross-checked against the angular separation computed with the math module from the stored centres "
+    "(1e-14 rad + 1e-9 relative); calls in which a distance lies within 2^-40 (relative) of rtol * radius are not compared (near_tie_skipped)",
 ]
 ASSUMPTIONS = ["weights are dyadic, so the float sum of weights is exact"]
 RULE = ("cases = (patch mode, centre order, sizes incl. single-object patches, weights on/off); distinct by generator parameters "
@@ -75,7 +90,11 @@ RULE = ("cases = (patch mode, centre order, sizes incl. single-object patches, w
         "or records, chunk size, probe size, workers + completion order, created or reopened, what the second catalog is handed); non-trivial "
         "when at least two patches hold records and some patch holds more than one; "
         "guard cases = (scene: centres, number of catalogs 2..4, extent and records-per-patch profile) x (which catalog is displaced / altered, "
-        "how, by how many reference radii, which patches) x (entry point, roles / call order); non-trivial unless all catalogs are aligned")
+        "how, by how many reference radii, which patches) x (entry point, roles / call order); non-trivial unless all catalogs are aligned; "
+        "degenerate guard cases = (scene: which patches of which catalogs hold one object / identical objects / objects 1e-8 deg apart, patch mode "
+        "of every catalog, created or restored) x (which catalog is displaced, on the degenerate / proper / one / all patches, slightly / far / by "
+        "a multiple of the radius) x (entry point, roles / call order); non-trivial when the reference catalog has a zero or tiny radius and a "
+        "catalog is displaced, or the verdict hinges on a zero- or tiny-radius patch")
 HEADER = "From Verif Require Import Prelude Metadata.\nOpen Scope Q_scope.\n"
 
 
@@ -877,6 +896,301 @@ def judge_guard_many(ctx, metas, codes):
             ctx.disagree("Cases_C12_guardn", cid, dict(code=c, meta=rep))
 
 
+# ------------------------------------------------------------------ degenerate patches in the guard
+# A patch that holds one object, or several objects at one position, has the stored radius 0 (or a radius of a few
+# 1e-16 when the centre is the mean of its records); a patch of two objects 1e-8 deg apart has a tiny one.  The rule
+# "refuse centres farther apart than rtol times the radius" makes ANY displacement of the partner's centre large there.
+GD_SLIGHT = [1e-7, 1e-5, 1e-3]                 # displacement [deg]: small against every proper patch, large against radius 0
+GD_FAR = [0.5, 1.0, 3.0]                       # displacement in units of the centre spacing
+GD_FRAC = [0.25, 0.4999, 0.5001, 0.75, 1.5]    # displacement in units of the reference catalog's radius (proper patches)
+GD_DEGENERATE = ["single", "same", "tiny"]
+GD_TINY_RAD = 1e-9                             # label only: radii below this (rad) are called tiny
+
+
+def gd_offsets(rng, shape, n, ext_deg):
+    """records of one patch as (dx, dy) [deg] around its anchor, point symmetric: the mean direction is the anchor"""
+    if shape == "single":
+        return [(0.0, 0.0)]
+    if shape == "same":
+        return [(0.0, 0.0)] * max(2, n)
+    if shape == "tiny":
+        e = rng.choice([1e-9, 1e-8, 1e-7])
+        out = []
+        for _ in range(rng.choice([1, 1, 2])):
+            a = (rng.uniform(-1, 1) * e, rng.uniform(-1, 1) * e)
+            out += [a, (-a[0], -a[1])]
+        return out + ([(0.0, 0.0)] if rng.random() < 0.3 else [])
+    out = []
+    for _ in range(max(1, n // 2)):
+        a = (rng.uniform(-1, 1) * ext_deg, rng.uniform(-1, 1) * ext_deg)
+        out += [a, (-a[0], -a[1])]
+    return out + ([(0.0, 0.0)] if n % 2 else [])
+
+
+def gd_plan(rng, want):
+    """a scene: k catalogs over the same anchors; any subset of the patches of some catalogs is degenerate.
+    want = which catalog should hold degenerate patches: the planned reference, a partner, both"""
+    for _ in range(200):
+        k = rng.choice([2, 2, 2, 3, 4])
+        ncent = rng.choice([2, 3, 4, 5])
+        ra0, dec0 = rng.choice([(30.0, 10.0), (359.5, -40.0), (120.0, 88.5), (250.0, -89.0), (0.2, 0.0)])
+        spacing = rng.choice([1.0, 3.0])
+        cents = [offset(ra0, dec0, j * spacing, (j % 2) * spacing * 0.3) for j in range(ncent)]
+        rng.shuffle(cents)
+        levels = [12, 8, 6, 4][:k]
+        rng.shuffle(levels)
+        if rng.random() < 0.25:
+            levels = [levels[0]] * k                                  # ties: the first catalog of the call is the reference
+        holders = [rng.random() < 0.6 for _ in range(k)]
+        if not any(holders):
+            holders[rng.randrange(k)] = True
+        shapes, offs = [], []
+        for i in range(k):
+            sub = set(range(ncent)) if rng.random() < 0.25 else set(rng.sample(range(ncent), rng.randrange(1, ncent + 1)))
+            sh = [(rng.choice(GD_DEGENERATE) if (holders[i] and p in sub) else "normal") for p in range(ncent)]
+            ext = rng.choice(list(EXTENT.values())) * spacing
+            shapes.append(sh)
+            offs.append([gd_offsets(rng, sh[p], rng.choice([2, 3, levels[i] + 5]) if sh[p] == "same" else levels[i], ext)
+                         for p in range(ncent)])
+        counts = [[len(o) for o in offs[i]] for i in range(k)]
+        ref = max(range(k), key=lambda i: (counts[i], -i))
+        ref_deg = any(x != "normal" for x in shapes[ref])
+        oth_deg = any(x != "normal" for i in range(k) if i != ref for x in shapes[i])
+        got = "both" if (ref_deg and oth_deg) else ("ref" if ref_deg else "partner")
+        if got != want:
+            continue
+        modes = [rng.choice(["name", "centers", "centers", "like"]) for _ in range(k)]
+        names = [i for i in range(k) if modes[i] == "name"]
+        src = names[0] if names else None
+        modes = [("centers" if (m == "like" and src is None) else m) for m in modes]
+        return dict(k=k, ncent=ncent, spacing=spacing, cents=cents, shapes=shapes, offs=offs, counts=counts, planned_ref=ref,
+                    modes=modes, like_source=src, restored=[rng.random() < 0.4 for _ in range(k)], where=want,
+                    like_by_catalog=rng.random() < 0.5)
+    raise AssertionError("no scene plan for %s" % want)
+
+
+def gd_build(ctx, name, anchors, offs, mode, given=None, restored=False):
+    """catalog whose patch p holds the records offs[p] placed around anchors[p] [deg]; mode name: index column, the centre is the
+    mean of the records; otherwise given centres (the anchors unless `given`: coordinates or a catalog)"""
+    pts, col = [], []
+    for p, a in enumerate(anchors):
+        for dx, dy in offs[p]:
+            pts.append(offset(a[0], a[1], dx, dy)); col.append(p)
+    z = [ZCYCLE[i % 3] for i in range(len(pts))]
+    if mode == "name":
+        cat = build(ctx, name, pts, None, z, pid=col)
+    else:
+        cat = build(ctx, name, pts, None, z,
+                    patch_centers=given if given is not None else impl.AngularCoordinates(np.deg2rad(np.asarray(anchors))))
+    if restored:
+        cat = impl.Catalog(cat.cache_directory)
+    return cat, pts
+
+
+def gd_separation(c1, c2):
+    """angular separation [rad] of two (ra, dec) [rad] with the math module only"""
+    import math
+    v = [(math.cos(r) * math.cos(d), math.sin(r) * math.cos(d), math.sin(d)) for r, d in (c1, c2)]
+    chord = math.sqrt(sum((a - b) ** 2 for a, b in zip(*v)))
+    return 2.0 * math.asin(min(1.0, chord / 2.0))
+
+
+def run_guard_degenerate(ctx, cfg):
+    """see GD_* above; returns (terms, metas)"""
+    from yaw.catalog.catalog import InconsistentPatchesError
+    rng = ctx.rng
+    terms, metas = [], []
+    wants = ["ref", "ref", "both", "partner", "ref", "both"]
+    wants = [wants[i % len(wants)] for i in range(ctx.n(24, 160))]
+    skip = ("contains no data", "do not match")
+    for sidx, want in enumerate(wants):
+        sc = gd_plan(rng, want)
+        k, ncent, cents, src = sc["k"], sc["ncent"], sc["cents"], sc["like_source"]
+
+        def make(i, tag, anchors_i, base):
+            """catalog i of the scene with its records around anchors_i; a `like` catalog is GIVEN the reported centres of the
+            undisplaced catalog src wherever its anchor is not displaced"""
+            if sc["modes"][i] != "like":
+                return gd_build(ctx, "%s%d" % (tag, i), anchors_i, sc["offs"][i], sc["modes"][i], restored=sc["restored"][i])
+            rep = base[src][0].get_centers()
+            rows = np.array(rep.data, dtype="f8").reshape(-1, 2).copy()
+            anc = []
+            for p in range(ncent):
+                if anchors_i[p] == cents[p]:
+                    anc.append((float(np.rad2deg(rows[p, 0])), float(np.rad2deg(rows[p, 1]))))
+                else:
+                    anc.append(anchors_i[p]); rows[p] = np.deg2rad(np.asarray(anchors_i[p]))
+            same = all(anchors_i[p] == cents[p] for p in range(ncent))
+            given = base[src][0] if (same and sc["like_by_catalog"]) else (rep if same else impl.AngularCoordinates(rows))
+            return gd_build(ctx, "%s%d" % (tag, i), anc, sc["offs"][i], "centers", given=given, restored=sc["restored"][i])
+
+        base = [None] * k
+        try:
+            for i in sorted(range(k), key=lambda i: sc["modes"][i] == "like"):       # the source of a `like` catalog first
+                base[i] = make(i, "gd_a", cents, base)
+        except ValueError as e:
+            if any(x in str(e) for x in skip):
+                ctx.bump("guardd-scene-skipped")
+                for b in base:
+                    if b is not None:
+                        shutil.rmtree(str(b[0].cache_directory), ignore_errors=True)
+                continue
+            raise
+        bobs = [gm_observe(b[0]) for b in base]
+        bref = sorted(range(k), key=lambda i: tuple(bobs[i]["nrec"]), reverse=True)[0]
+        ref_radii = bobs[bref]["radii"]
+        degp = [p for p in range(ncent) if ref_radii[p] < GD_TINY_RAD]
+        prop = [p for p in range(ncent) if ref_radii[p] >= GD_TINY_RAD]
+        # who is displaced, on which patches, by how much
+        variants = [(None, "aligned", "-")]
+        whos = [bref] + rng.sample([i for i in range(k) if i != bref], 1)
+        for who in whos:
+            variants += [(who, "deg-only", "slight"), (who, "deg-only", "far"), (who, "proper-only", "frac"),
+                         (who,) + rng.choice([("one", "slight"), ("all", "frac"), ("all", "slight"), ("one", "far"), ("proper-only", "slight"),
+                                              ("deg-only", "frac")])]
+        for vidx, (who, which, amount) in enumerate(variants):
+            anchors = [list(cents) for _ in range(k)]
+            if who is not None:
+                T = {"deg-only": degp, "proper-only": prop, "one": [rng.randrange(ncent)], "all": list(range(ncent))}[which]
+                if which in ("deg-only", "proper-only") and T and rng.random() < 0.5:
+                    T = rng.sample(T, rng.randrange(1, len(T) + 1))
+                if not T:
+                    ctx.bump("guardd-variant-void:%s" % which); continue
+                for p in T:
+                    if amount == "far":
+                        d = rng.choice(GD_FAR) * sc["spacing"]
+                    elif amount == "frac" and ref_radii[p] >= GD_TINY_RAD:
+                        d = rng.choice(GD_FRAC) * float(np.rad2deg(ref_radii[p]))
+                    elif amount == "frac" and ref_radii[p] > 0.0:
+                        d = rng.choice([0.25, 0.75, 1.5, 40.0]) * float(np.rad2deg(ref_radii[p]))
+                    else:
+                        d = rng.choice(GD_SLIGHT)
+                    b = rng.uniform(0.0, 2.0 * np.pi)
+                    anchors[who][p] = offset(cents[p][0], cents[p][1], d * np.sin(b), d * np.cos(b))
+            cats, pts = [], []
+            try:
+                for i in range(k):
+                    cat, pp = base[i] if anchors[i] == cents else make(i, "gd_v", anchors[i], base)
+                    cats.append(cat); pts.append(pp)
+            except ValueError as e:
+                if any(x in str(e) for x in skip):
+                    ctx.bump("guardd-variant-skipped:%s/%s" % (which, amount))
+                    for c in cats:
+                        if all(c is not b[0] for b in base):
+                            shutil.rmtree(str(c.cache_directory), ignore_errors=True)
+                    continue
+                raise
+            obs = [bobs[i] if cats[i] is base[i][0] else gm_observe(cats[i]) for i in range(k)]
+            for entry in ["linkage", {2: "auto", 3: rng.choice(["cross/ref_rand", "cross/unk_rand"]), 4: "cross/both"}[k]]:
+                order = list(range(k)); rng.shuffle(order)
+                called = [cats[i] for i in order]
+                o = [obs[i] for i in order]
+                dt = [[[] if (i == j or len(o[i]["ids"]) != len(o[j]["ids"]))
+                       else [float(x) for x in o[i]["centers"].distance(o[j]["centers"]).data] for j in range(k)] for i in range(k)]
+                chk = sorted(range(k), key=lambda i: tuple(o[i]["nrec"]), reverse=True)
+                r = chk[0]
+                rad = o[r]["radii"]
+                # rounding: a displacement within 2^-40 of rtol * radius is not compared (the float quotient may round onto rtol)
+                if any(rr > 0.0 and abs(Fraction(d) - Fraction(rr) / 2) <= Fraction(rr) / 2 ** 40
+                       for j in range(k) if j != r for d, rr in zip(dt[r][j], rad)):
+                    ctx.bump("near_tie_skipped"); continue
+                # the float quotient of the pinned code warns on x / 0 and 0 / 0 (numpy RuntimeWarning): counted, not printed
+                with warnings.catch_warnings(record=True) as wlog:
+                    warnings.simplefilter("always")
+                    try:
+                        gm_call(entry, cfg, called)
+                        accepted = True
+                    except InconsistentPatchesError:
+                        accepted = False
+                for wname in sorted({w.category.__name__ for w in wlog}):
+                    ctx.bump("guardd-library-warning:%s" % wname)
+                gc = ["{| g_ids := %s; g_nrec := %s; g_radii := %s |}" % (fq.nlist(c["ids"]), fq.nlist(c["nrec"]), fq.qlist(c["radii"])) for c in o]
+                terms.append("c12_guardd_case %s %s %s" % (fq.lst(gc), fq.lst([fq.lst([fq.qlist(d) for d in row]) for row in dt]), fq.b(accepted)))
+                # labels and message material only (the verdict is the Coq code)
+                zero = [p for p in range(len(rad)) if rad[p] == 0.0]
+                tiny = [p for p in range(len(rad)) if 0.0 < rad[p] < GD_TINY_RAD]
+                same_ids = all(c["ids"] == o[0]["ids"] for c in o)
+                off_zero = same_ids and any(dt[r][j][p] > 0.0 for j in range(k) if j != r for p in zero)
+                off_tiny = same_ids and any(dt[r][j][p] > 0.5 * rad[p] for j in range(k) if j != r for p in tiny)
+                off_prop = same_ids and any(dt[r][j][p] > 0.5 * rad[p] for j in range(k) if j != r for p in range(len(rad)) if rad[p] >= GD_TINY_RAD)
+                hinge = "zero-radius" if (off_zero and not off_tiny and not off_prop) else ("tiny-radius" if (off_tiny and not off_zero and not off_prop) else
+                        ("proper" if (off_prop and not off_zero and not off_tiny) else ("mixed" if (off_zero or off_tiny or off_prop) else "none")))
+                refdeg = "zero" if zero else ("tiny" if tiny else "proper")
+                # the distance table against the math module (the table is the implementation's own)
+                sep_bad = []
+                if same_ids:
+                    cc = [np.asarray(c["centers"].data, dtype="f8").reshape(-1, 2) for c in o]
+                    for j in range(k):
+                        for p in range(len(rad)):
+                            if j != r:
+                                mine = gd_separation(tuple(cc[r][p]), tuple(cc[j][p]))
+                                if abs(mine - dt[r][j][p]) > 1e-14 + 1e-9 * mine:
+                                    sep_bad.append((j, p, mine, dt[r][j][p]))
+                cid = ("guardd", sidx, vidx, entry)
+                meta = dict(entry=entry, k=k, who=who, which=which, amount=amount, call_order=order, accepted=accepted, where=sc["where"],
+                            modes=[sc["modes"][i] for i in order], restored=[sc["restored"][i] for i in order],
+                            shapes=[sc["shapes"][i] for i in order], ids=[c["ids"] for c in o], nrec=[c["nrec"] for c in o],
+                            radii=[c["radii"] for c in o], dists=dt, checking_order=chk, hinge=hinge, reference_radii=refdeg,
+                            centres=[[[float(x).hex() for x in row] for row in np.asarray(c["centers"].data).reshape(-1, 2)] for c in o],
+                            points=[pts[i] for i in order])
+                metas.append((cid, meta))
+                if sep_bad:
+                    ctx.fail("c12-centre-distance-table-wrong", "the distances between corresponding centres that the catalogs' coordinates report "
+                             "differ from the angular separation of the stored centres: (catalog, patch, separation, reported) %s" % sep_bad[:3], meta, case=cid)
+                ctx.count(key=("guardd", sidx, vidx, entry, tuple(order), tuple(map(tuple, (c["nrec"] for c in o))), tuple(rad)),
+                          nontrivial=hinge in ("zero-radius", "tiny-radius", "mixed") or (refdeg != "proper" and which != "aligned"),
+                          kind="guardd/k%d/%s/ref-%s/%s-%s/hinge-%s/%s" % (k, entry.split("/")[0], refdeg, which, amount, hinge,
+                                                                       "accepted" if accepted else "refused"))
+                ctx.bump("guardd-hinge:%s" % hinge)
+                ctx.bump("guardd-reference:%s/%s/%s" % (refdeg, sc["modes"][order[r]], "restored" if sc["restored"][order[r]] else "created"))
+                ctx.sample(dict(entry=entry, k=k, which=which, amount=amount, reference_radii=rad, hinge=hinge, accepted=accepted), limit=6)
+            for i in range(k):
+                if cats[i] is not base[i][0]:
+                    shutil.rmtree(str(cats[i].cache_directory), ignore_errors=True)
+        for cat, _ in base:
+            shutil.rmtree(str(cat.cache_directory), ignore_errors=True)
+    ctx.log("guard cases with degenerate patches: %d scenes, %d terms" % (len(wants), len(terms)))
+    return terms, metas
+
+
+def judge_guard_degenerate(ctx, metas, codes):
+    for (cid, m), c in zip(metas, codes):
+        if not c:
+            continue
+        rep = dict(m)
+        r = m["checking_order"][0]
+        how = "%s/%s" % (m["modes"][r], "restored" if m["restored"][r] else "created")
+        if c & 8:
+            ctx.disagree("Cases_C12_guardd/shape", cid, dict(code=c, meta=rep))
+        elif c & 16:
+            bad = [(j, p, m["dists"][r][j][p]) for j in range(m["k"]) if j != r for p, rad in enumerate(m["radii"][r])
+                   if rad == 0.0 and m["dists"][r][j][p] > 0.0]
+            ctx.fail("c12-guard-accepts-displaced-zero-radius-patch:%s" % how,
+                     "%s with %d catalogs ran without InconsistentPatchesError although a patch of the reference catalog (catalog %d of the call, %s, "
+                     "records per patch %s, radii %s) has the stored radius 0 and the corresponding centre of another catalog is displaced: "
+                     "(catalog, patch, distance [rad]) %s - a zero radius makes every displacement larger than rtol * radius"
+                     % (m["entry"], m["k"], r, how, m["nrec"][r], m["radii"][r], bad[:4]), rep, case=cid)
+        elif c & 4:
+            if any(ids != m["ids"][0] for ids in m["ids"]):
+                ctx.fail("c12-guard-accepts-different-ids", "%s accepted catalogs with patch ids %s" % (m["entry"], m["ids"]), rep, case=cid)
+            else:
+                bad = [(j, p, d, rad) for j in range(m["k"]) if j != r for p, (d, rad) in enumerate(zip(m["dists"][r][j], m["radii"][r])) if d > rad]
+                tiny = bool(bad) and all(rad < GD_TINY_RAD for _, _, _, rad in bad)
+                ctx.fail("c12-guard-accepts-misaligned" + ("-tiny-radius-patch:%s" % how if tiny else ""),
+                         "%s with %d catalogs ran without InconsistentPatchesError although centres lie farther from the centres of the reference "
+                         "catalog than its patch radius: (catalog, patch, distance, radius) %s" % (m["entry"], m["k"], bad[:4]), rep, case=cid)
+        elif c & 2:
+            ctx.disagree("c12-guard-reference-choice", cid, dict(code=c, meta=rep))
+        elif c & 1:
+            if not m["accepted"] and m["hinge"] == "none" and m["reference_radii"] != "proper":
+                ctx.fail("c12-guard-refuses-aligned-degenerate-patch:%s" % how,
+                         "%s raised InconsistentPatchesError although every centre lies within rtol * radius of the reference centre (coinciding "
+                         "centres on the zero-radius patches): reference radii %s, distances %s"
+                         % (m["entry"], m["radii"][r], [m["dists"][r][j] for j in range(m["k"]) if j != r]), rep, case=cid)
+            else:
+                ctx.disagree("Cases_C12_guardd", cid, dict(code=c, meta=rep))
+
+
 def run_inputs_reused(ctx):
     """The catalog owns what it reports: after creation the caller may overwrite or reuse the arrays it handed over (the
     centre array, the table columns); the centres, radii, counts and weight sums the catalog reports - the live object as
@@ -1161,6 +1475,8 @@ def run(ctx):
     ctx.log("single-option cases done")
     # ---- the guard of measurements with 2, 3 and 4 catalogs ----
     nterms, nmetas = run_guard_many(ctx, cfg)
+    # ---- the same guard on degenerate patches (stored radius 0 or tiny) ----
+    dterms, dmetas = run_guard_degenerate(ctx, cfg)
     # ---- several patch-definition options at once (precedence centres > name > num) ----
     run_options(ctx, terms, metas)
     # ---- every creation route x centres given or made: the reported centres are the ones the partition used ----
@@ -1188,3 +1504,5 @@ def run(ctx):
             ctx.disagree("Cases_C12_guard", cid, dict(code=c, meta=meta))
     codes = ctx.shards("Cases_C12_guardn", HEADER, nterms, shard=60)
     judge_guard_many(ctx, nmetas, codes)
+    codes = ctx.shards("Cases_C12_guardd", HEADER, dterms, shard=60)
+    judge_guard_degenerate(ctx, dmetas, codes)
